@@ -5,8 +5,16 @@ executed only inside an `assert` (or under `if __debug__`) disappears under -O. 
 names in opt_shards(tier) in a child interpreter started with -O and merges the child's statistics and violations
 (cases are tagged {"pyopt": 1} so that replays run in the same mode)."""
 import json
+import os
 import pickle
 import sys
+
+if os.environ.get("VERIF_DEBUGLOG"):
+    # second environment: an application that has switched DEBUG logging on (code inside `if logger.isEnabledFor(DEBUG)`
+    # and lazily evaluated log arguments now run); the records themselves are thrown away
+    import logging
+
+    logging.basicConfig(level=logging.DEBUG, stream=open(os.devnull, "w"))
 
 from mc import kernel
 
@@ -14,7 +22,7 @@ from mc import kernel
 def main():
     mode = sys.argv[1]
     pid = sys.argv[2]
-    assert_off = not __debug__
+    assert_off = not __debug__ or bool(os.environ.get("VERIF_DEBUGLOG"))
     drv = kernel.load_driver(pid)
     if mode == "shards":
         tier, path = sys.argv[3], sys.argv[4]
